@@ -9,6 +9,9 @@
 (*    "ms":n,"steps":n,"cap":bool,"inb":bool,"fin":"eof|invalid|cap|-",    *)
 (*    "toks":[{"k":..,"o":..,"n":..}]}                                     *)
 (*   {"e":"Crash","id":..,"why":..,"wk":"timeout|exception|signal"}        *)
+(*   {"e":"Scale","id":..,"fe":..,"fam":"<input family>","n1":bytes,       *)
+(*    "ms1":n,"n2":bytes,"ms2":n}   one front end timed (normal build) on  *)
+(*    two members of a family of inputs, the second four times as long     *)
 (* Validation is total: every front-end run that is not explained goes to  *)
 (* `bad` with the NAME OF THE FORMULA violated, the front end and - where  *)
 (* the transcription of the pinned code predicts it - the named deviation  *)
@@ -55,6 +58,10 @@ WhyObs(c, e) ==
     ELSE IF ~ObsRecursionReported(c, e) THEN "ExpansionTerminates"
     ELSE IF ~ObsTokens(c, e) THEN "DRIFT-Tokens"
     ELSE ""
+\* "time proportional to the input": over a fourfold growth of the input the time per byte may grow at most
+\* threefold (linear 1x, n log n ~1.2x, quadratic 4x); runs under FloorMs are too short to be measured
+FloorMs == 800
+ObsTimeProportional(e) == e.ms2 <= FloorMs \/ e.ms2 * 10 <= 3 * (IF e.ms1 < 10 THEN 10 ELSE e.ms1) * ((e.n2 * 10) \div e.n1)   \* (32-bit integers)
 \* a run that did not come back: watchdog = Terminates; escaped C++ exception = NoThrow; signal, sanitizer abort = NoCrash
 WhyCrash(e) == IF e.wk = "timeout" THEN "Terminates" ELSE IF e.wk = "exception" THEN "NoThrow" ELSE "NoCrash"
 
@@ -76,6 +83,10 @@ Consume ==
                 LET w == WhyObs(case, e) IN
                 IF w = "" THEN nops' = nops + 1 /\ UNCHANGED <<case, cur, dead, bad>>
                 ELSE /\ bad' = Append(bad, [id |-> e.id, line |-> l, why |-> w, op |-> e.fe, dev |-> Predicted(case, e.fe), info |-> e.fin])
+                     /\ UNCHANGED <<case, cur, dead, nops>>
+         [] e.e = "Scale" ->
+                IF ObsTimeProportional(e) THEN nops' = nops + 1 /\ UNCHANGED <<case, cur, dead, bad>>
+                ELSE /\ bad' = Append(bad, [id |-> e.id, line |-> l, why |-> "TimeProportional", op |-> e.fe, dev |-> "", info |-> e.fam])
                      /\ UNCHANGED <<case, cur, dead, nops>>
          [] OTHER -> UNCHANGED <<case, cur, dead, bad, nops>>
 
